@@ -8,9 +8,9 @@ verus! {
 //!include prelude/app.rs
 
 //!type src/core/tracking.rs Run
-pub(crate) struct Run {
-    pub(crate) path: path::PathBuf,
-    pub(crate) id: usize,
+pub struct Run {
+    pub path: path::PathBuf,
+    pub id: usize,
 }
 //!end
 
